@@ -310,4 +310,148 @@ m('c01-twin-extra-diag', ['C01'], 'neutral', FEDAVG, AP,
   "client_diagnostics[client_id] = {'delta_l2_norm': tree_util.tree_l2_norm(delta_params)}",
   "client_diagnostics[client_id] = {'delta_l2_norm': tree_util.tree_l2_norm(delta_params), 'n': num_examples}")
 
+# ---------------------------------------------------------------- C12
+for _name, _file, _fn, _a, _b in [
+    ('fedprox', FEDPROX, 'create_train_for_each_client.client_final', "server_params", "client_step_state['params']"),
+    ('mime', MIME, 'create_train_for_each_client.client_final', "shared_input['params']", "client_step_state['params']"),
+    ('mimelite', MIMELITE, 'create_train_for_each_client.client_final', "shared_input['params']", "step_state['params']"),
+    ('agnostic', AGN, 'create_train_for_each_client.client_final', "shared_input['params']", "step_state['params']"),
+]:
+  m(f'c12-delta-swapped-{_name}', 'C12', 'break', _file, _fn,
+    f"jax.tree_util.tree_map(lambda a, b: a - b, {_a}, {_b})", f"jax.tree_util.tree_map(lambda a, b: a - b, {_b}, {_a})",
+    mode='expr', expect='R-SIB.delta')
+m('c12-delta-swapped-hyp', 'C12', 'break', HYP, '_BaseClientTrainer.__init__.client_final',
+  "jax.tree_util.tree_map(jnp.subtract, init_params, params)", "jax.tree_util.tree_map(jnp.subtract, params, init_params)",
+  mode='expr', expect='R-SIB.delta')
+m('c12-delta-swapped-apfl', 'C12', 'break', APFL, 'create_train_for_each_client.client_final',
+  "jax.tree_util.tree_map(jnp.subtract, server_params, client_step_state['server_params'])",
+  "jax.tree_util.tree_map(jnp.subtract, client_step_state['server_params'], server_params)", mode='expr',
+  expect='R-SIB.delta')
+m('c12-prox-additive-mu', 'C12', 'break', FEDPROX, 'fed_prox.fed_prox_loss',
+  "proximal_loss = 0.5 * proximal_weight * tree_util.tree_l2_squared(jax.tree_util.tree_map(lambda a, b: a - b, server_params, params))",
+  "proximal_loss = 0.5 * (proximal_weight + tree_util.tree_l2_squared(jax.tree_util.tree_map(lambda a, b: a - b, server_params, params)))",
+  expect='R-PROX.term')
+m('c12-prox-no-mu', 'C12', 'break', FEDPROX, 'fed_prox.fed_prox_loss',
+  "proximal_loss = 0.5 * proximal_weight * tree_util.tree_l2_squared(jax.tree_util.tree_map(lambda a, b: a - b, server_params, params))",
+  "proximal_loss = 0.5 * tree_util.tree_l2_squared(jax.tree_util.tree_map(lambda a, b: a - b, server_params, params))",
+  expect='R-PROX.term')
+m('c12-prox-grad-wrt-anchor', 'C12', 'break', FEDPROX, 'fed_prox', "grad_fn = jax.grad(fed_prox_loss)",
+  "grad_fn = jax.grad(fed_prox_loss, argnums=1)", expect='R-PROX.grad')
+m('c12-prox-anchor-drifts', 'C12', 'break', FEDPROX, 'create_train_for_each_client.client_step',
+  "next_client_step_state = {'params': params, 'opt_state': opt_state, 'rng': rng, 'server_params': client_step_state['server_params']}",
+  "next_client_step_state = {'params': params, 'opt_state': opt_state, 'rng': rng, 'server_params': client_step_state['params']}",
+  expect='R-SIB.passthrough')
+m('c12-prox-anchor-args-swapped', 'C12', 'break', FEDPROX, 'create_train_for_each_client.client_step',
+  "grad_fn(client_step_state['params'], client_step_state['server_params'], batch, use_rng)",
+  "grad_fn(client_step_state['server_params'], client_step_state['params'], batch, use_rng)", mode='expr', expect='R-')
+m('c12-prox-penalty-outside-mean', 'C12', 'break', FEDPROX, 'fed_prox.fed_prox_loss',
+  "return jnp.mean(example_loss + proximal_loss)", "return jnp.sum(example_loss) + proximal_loss", expect='R-PROX.sum')
+m('c12-mime-server-sign', 'C12', 'break', MIME, 'mime.server_update',
+  "lambda p, q: p - server_learning_rate * q", "lambda p, q: p + server_learning_rate * q", mode='expr',
+  expect='R-SIB.server-step')
+m('c12-mime-optstate-at-new-params', 'C12', 'break', MIME, 'mime.server_update',
+  "base_optimizer.apply(server_grads, server_state.opt_state, server_state.params)",
+  "base_optimizer.apply(mean_delta_params, server_state.opt_state, server_state.params)", mode='expr', expect='R-')
+m('c12-mime-keeps-opt-params', 'C12', 'break', MIMELITE, 'mime_lite.server_update',
+  "return mime.ServerState(params, opt_state)", "return mime.ServerState(_, opt_state)") if False else None
+m('c12-mime-grad-at-other-point', 'C12', 'break', MIME, 'mime.apply',
+  "grads_for_each_client(server_state.params, grads_batch_clients)",
+  "grads_for_each_client(tree_util.tree_zeros_like(server_state.params), grads_batch_clients)", mode='expr', expect='R-MIME.grad-point')
+m('c12-mime-count-len', 'C12', 'break', MIME, 'create_grads_for_each_client.client_step',
+  "num = jnp.sum(batch[client_datasets.EXAMPLE_MASK_KEY])", "num = len(batch[client_datasets.EXAMPLE_MASK_KEY])",
+  expect='R-MASK.count')
+m('c12-mime-unpaired-count', 'C12', 'break', MIME, 'create_grads_for_each_client.client_step',
+  "next_client_step_state = {'params': client_step_state['params'], 'rng': rng, 'num_sum': client_step_state['num_sum'] + num, 'grads_sum': grads_sum}",
+  "next_client_step_state = {'params': client_step_state['params'], 'rng': rng, 'num_sum': client_step_state['num_sum'] + 1.0, 'grads_sum': grads_sum}",
+  expect='R-WMEAN.pair-step')
+m('c12-mime-local-optstate-updated-twin', 'C12', 'break', MIME, 'create_train_for_each_client.client_step',
+  "grads = grad_fn(client_step_state['params'], batch, use_rng)", "grads = grad_fn(client_step_state['init_params'], batch, use_rng)",
+  expect='R-SIB.grad-point')
+m('c12-hyp-index-mismatch', 'C12', 'break', HYP, 'expectation_step',
+  "cluster_num_examples_sum[cluster_id] += num_examples[client_id]", "cluster_num_examples_sum[0] += num_examples[client_id]",
+  expect='R-WMEAN')
+m('c12-hyp-start-wrong-cluster', 'C12', 'break', HYP, 'expectation_step',
+  "cluster_params[client_cluster_ids[client_id]]", "cluster_params[0]", mode='expr', expect='R-HYP.start')
+m('c12-hyp-empty-cluster-reset', 'C12', 'break', HYP, 'hyp_cluster.apply',
+  "next_opt_state, next_params = (opt_state, params)", "next_opt_state, next_params = (server_optimizer.init(params), params)",
+  expect='R-HYP.empty')
+m('c12-hyp-zip-misaligned', 'C12', 'break', HYP, 'hyp_cluster.apply',
+  "zip(cluster_delta_params, server_state.opt_states, server_state.cluster_params)",
+  "zip(cluster_delta_params, server_state.cluster_params, server_state.opt_states)", mode='expr', expect='R-HYP.roles')
+m('c12-hyp-argmax', 'C12', 'break', HYP, '_cluster_assignment', "jnp.argmin(jnp.stack(losses))", "jnp.argmax(jnp.stack(losses))",
+  mode='expr', expect='R-HYP.argmin')
+m('c12-apfl-global-uses-personal-grads', 'C12', 'break', APFL, 'create_train_for_each_client.client_step',
+  "client_optimizer.apply(server_grads, client_step_state['server_opt_state'], client_step_state['server_params'])",
+  "client_optimizer.apply(client_grads, client_step_state['server_opt_state'], client_step_state['server_params'])",
+  mode='expr', expect='R-SIB')
+m('c12-apfl-delta-from-personal', 'C12', 'break', APFL, 'create_train_for_each_client.client_final',
+  "jax.tree_util.tree_map(jnp.subtract, server_params, client_step_state['server_params'])",
+  "jax.tree_util.tree_map(jnp.subtract, server_params, client_step_state['state'].params)", mode='expr', expect='R-SIB')
+m('c12-agnostic-weight-other', 'C12', 'break', AGN, 'agnostic_federated_averaging.apply',
+  "weight = client_domain_metrics[cid]['beta']", "weight = client_domain_metrics[cid]['domain_num'].sum()", expect='R-WMEAN')
+m('c12-twin-sub-fn', 'C12', 'neutral', FEDPROX, 'create_train_for_each_client.client_final', "lambda a, b: a - b",
+  "jnp.subtract", mode='expr')
+m('c12-twin-prox-order', 'C12', 'neutral', FEDPROX, 'fed_prox.fed_prox_loss',
+  "proximal_loss = 0.5 * proximal_weight * tree_util.tree_l2_squared(jax.tree_util.tree_map(lambda a, b: a - b, server_params, params))",
+  "proximal_loss = proximal_weight * 0.5 * tree_util.tree_l2_squared(jax.tree_util.tree_map(lambda a, b: a - b, params, server_params))")
+m('c12-twin-hyp-is-not-none', 'C12', 'neutral', HYP, 'hyp_cluster.apply',
+  "if delta_params is None:\n  next_opt_state, next_params = (opt_state, params)\nelse:\n  next_opt_state, next_params = server_optimizer.apply(delta_params, opt_state, params)",
+  "if delta_params is not None:\n  next_opt_state, next_params = server_optimizer.apply(delta_params, opt_state, params)\nelse:\n  next_opt_state, next_params = (opt_state, params)")
+
+# ---------------------------------------------------------------- C07
+m('c07-sum-no-copy', 'C07', 'break', TU, 'tree_sum', "pytree_sum = jax.tree_util.tree_map(jnp.array, pytree)",
+  "pytree_sum = pytree", expect='R-DONATE')
+m('c07-sum-asarray', 'C07', 'break', TU, 'tree_sum', "pytree_sum = jax.tree_util.tree_map(jnp.array, pytree)",
+  "pytree_sum = jax.tree_util.tree_map(jnp.asarray, pytree)", expect='R-DONATE')
+m('c07-sum-identity-lambda', 'C07', 'break', TU, 'tree_sum', "pytree_sum = jax.tree_util.tree_map(jnp.array, pytree)",
+  "pytree_sum = jax.tree_util.tree_map(lambda x: x, pytree)", expect='R-DONATE')
+m('c07-add-operands-swapped', 'C07', 'break', TU, 'tree_sum', "pytree_sum = _tree_add_eq(pytree_sum, pytree)",
+  "pytree_sum = _tree_add_eq(pytree, pytree_sum)", expect='R-')
+m('c07-public-donates', 'C07', 'break', TU, None, "@jax.jit\ndef tree_weight(pytree: PyTree, weight: float) -> PyTree:\n  \"\"\"Weights tree leaves by weight.\"\"\"\n  return jax.tree.map(lambda l: l * weight, pytree)",
+  "@functools.partial(jax.jit, donate_argnums=0)\ndef tree_weight(pytree: PyTree, weight: float) -> PyTree:\n  return jax.tree.map(lambda l: l * weight, pytree)\nimport functools") if False else None
+m('c07-inverse-public-donates', 'C07', 'break', TU, 'tree_inverse_weight', "return tree_weight(pytree, inverse_weight)",
+  "return _tree_weight_eq(pytree, inverse_weight)", expect='R-DONATE')
+m('c07-mean-unweighted-first', 'C07', 'break', TU, 'tree_mean', "sum_weighted_pytree = weighted_pytree",
+  "sum_weighted_pytree = pytree", expect='R-')
+m('c07-mean-read-after-donate', 'C07', 'break', TU, 'tree_mean',
+  "return _tree_inverse_weight_eq(sum_weighted_pytree, sum_weight)",
+  "mean = _tree_inverse_weight_eq(sum_weighted_pytree, sum_weight)\nreturn tree_add(mean, tree_zeros_like(sum_weighted_pytree))",
+  expect='R-DONATE.dead')
+m('c07-mean-weight-skipped', 'C07', 'break', TU, 'tree_mean', "sum_weight += weight",
+  "if sum_weighted_pytree is not None:\n  sum_weight += weight", expect='R-WMEAN')
+m('c07-mean-weight-abs', 'C07', 'break', TU, 'tree_mean', "sum_weight += weight", "sum_weight += 1.0", expect='R-WMEAN')
+m('c07-mean-unguarded', 'C07', 'break', TU, '_tree_inverse_weight_eq',
+  "inverse_weight = 1.0 / weight if weight > 0.0 else 0.0", "inverse_weight = 1.0 / weight", expect='R-DIV')
+m('c07-mean-guard-nan', 'C07', 'break', TU, '_tree_inverse_weight_eq',
+  "inverse_weight = 1.0 / weight if weight > 0.0 else 0.0", "inverse_weight = 1.0 / weight if weight > 0.0 else float('nan')",
+  expect='R-DIV.inverse')
+m('c07-clip-per-leaf', 'C07', 'break', TU, 'tree_clip_by_global_norm',
+  "return jax.tree_util.tree_map(lambda t: scale * t, pytree)",
+  "return jax.tree_util.tree_map(lambda t: jnp.minimum(1, max_norm / jnp.linalg.norm(t)) * t, pytree)", expect='R-CLIP')
+m('c07-clip-no-min', 'C07', 'break', TU, 'tree_clip_by_global_norm', "scale = jnp.minimum(1, max_norm / global_norm)",
+  "scale = max_norm / global_norm", expect='R-')
+m('c07-norm-no-sqrt', 'C07', 'break', TU, 'tree_l2_norm', "return jnp.sqrt(tree_l2_squared(pytree))",
+  "return tree_l2_squared(pytree)", expect='R-CLIP.norm')
+m('c07-agg-swapped', 'C07', 'break', AGG, 'mean_aggregator.apply.extract_params_and_weight',
+  "_, param, weight = clients_params_and_weight", "_, weight, param = clients_params_and_weight", expect='R-WMEAN.agg')
+m('c07-agg-len', 'C07', 'break', AGG, 'mean_aggregator.apply',
+  "params_and_weights = map(extract_params_and_weight, clients_params_and_weights)",
+  "n = len(clients_params_and_weights)\nparams_and_weights = map(extract_params_and_weight, clients_params_and_weights)",
+  expect='R-ONEPASS')
+m('c07-sum-two-pass', 'C07', 'break', TU, 'tree_sum', "pytree_sum = None",
+  "pytree_sum = None\nfor _ in pytrees:\n  pass", expect='R-ONEPASS')
+m('c07-mean-mutates-input', 'C07', 'break', TU, 'tree_mean', "sum_weight = 0.0",
+  "sum_weight = 0.0\npytrees_and_weights.sort()", expect='R-')
+m('c07-twin-copy-fn', 'C07', 'neutral', TU, 'tree_sum', "pytree_sum = jax.tree_util.tree_map(jnp.array, pytree)",
+  "pytree_sum = jax.tree_util.tree_map(jnp.copy, pytree)")
+m('c07-twin-copy-lambda', 'C07', 'neutral', TU, 'tree_sum', "pytree_sum = jax.tree_util.tree_map(jnp.array, pytree)",
+  "pytree_sum = jax.tree_util.tree_map(lambda x: x + 0, pytree)")
+m('c07-twin-no-del', 'C07', 'neutral', TU, 'tree_mean', "del weighted_pytree", "pass")
+m('c07-twin-genexp-agg', 'C07', 'neutral', AGG, 'mean_aggregator.apply',
+  "params_and_weights = map(extract_params_and_weight, clients_params_and_weights)",
+  "params_and_weights = ((p, w) for _, p, w in clients_params_and_weights)")
+m('c07-twin-is-not-none', 'C07', 'neutral', TU, 'tree_sum',
+  "if pytree_sum is None:\n  pytree_sum = jax.tree_util.tree_map(jnp.array, pytree)\nelse:\n  pytree_sum = _tree_add_eq(pytree_sum, pytree)",
+  "if pytree_sum is not None:\n  pytree_sum = _tree_add_eq(pytree_sum, pytree)\nelse:\n  pytree_sum = jax.tree_util.tree_map(jnp.array, pytree)")
+
 _E[:] = [e for e in _E if e is not None]
